@@ -46,7 +46,7 @@ BOUND = T5 + T6 + T3 + 2 * DELAY + 1.0
 
 OPS = [
     "request_svs", "request_sv", "list_svs", "request_ecs", "set_ecs", "set_ecs_bad", "list_ecs", "list_alarms", "enable_alarm",
-    "disable_alarm", "set_alarm", "clear_alarm", "subscribe", "subscribe2", "trigger", "trigger", "update_sv", "go_online", "go_offline", "rcmd",
+    "disable_alarm", "set_alarm", "clear_alarm", "subscribe", "subscribe_racing", "subscribe2", "trigger", "trigger", "update_sv", "go_online", "go_offline", "rcmd",
     "are_you_there", "restart_host", "restart_equipment",
 ]
 
@@ -300,6 +300,44 @@ def run_case(case, observe=None):
                 if f:
                     return f
                 model["subscribed"] = True
+            elif k == "subscribe_racing":
+                # the equipment application triggers the event the moment the host's S2F37 has enabled it, i.e. while the host
+                # is still inside subscribe_collection_event (waiting for S2F38): triggered while enabled => must reach the host
+                stats["caps"].add("event")
+                if model["subscribed"]:
+                    continue
+                import secsgem.common.protocol as _pm
+
+                enabled_now = _pm.threading.Event()
+                raced = {}
+
+                def s2f37_and_notify(handler, message, _orig=eq._on_s02f37):
+                    r = _orig(handler, message)
+                    enabled_now.set()
+                    return r
+
+                def eq_app():
+                    if enabled_now.wait(20):
+                        raced["result"] = eq.trigger_collection_events([50])
+                        raced["done"] = True
+
+                eq.register_stream_function(2, 37, s2f37_and_notify)
+                sim.spawn(eq_app, "equipment-app")
+                r, f = hostcall(i, lambda: host.subscribe_collection_event(50, [30], 1000), k)
+                eq.register_stream_function(2, 37, eq._on_s02f37)
+                if f:
+                    return f
+                model["subscribed"] = True
+                sim.advance(T3 + 1.0)
+                if not raced.get("done"):
+                    return fail("equipment-call-hangs:trigger-racing-subscribe", i, sim.blocked_report(), "trigger returns")
+                new = [e for e in events[n_ev:] if e[1] == 50]
+                want = [(1000, [31337])] + ([(1001, [model["sv10"]])] if model["subscribed2"] else [])
+                if len(new) != len(want):
+                    return fail("event-not-exactly-once:racing-subscribe:" + ("lost" if len(new) < len(want) else "duplicated"), i, new, f"exactly {len(want)} collection_event_received for the event triggered right after S2F37 enabled it")
+                if sorted((e[2], e[3]) for e in new) != sorted(want):
+                    return fail("event-values-wrong", i, sorted((e[2], e[3]) for e in new), sorted(want))
+                stats["racing_subscribe"] = stats.get("racing_subscribe", 0) + 1
             elif k == "subscribe2":
                 # a second report (other variable) linked to the same event
                 stats["caps"].add("event")
@@ -378,7 +416,7 @@ def run_case(case, observe=None):
                 if f is not None:
                     return f
             dup = [e for e in events[n_ev:] if e[1] == 50]
-            if k != "trigger" and dup:
+            if k not in ("trigger", "subscribe_racing") and dup:
                 return fail("event-without-trigger", i, dup, "none")
         if sim.thread_errors and observe is not None:
             observe["thread_errors"] = sim.thread_errors[:3]
